@@ -8,7 +8,7 @@
    mirrors generate.go/bind.go computes exactly that, for every chain, behaviour and session. *)
 From Coq Require Import List Arith Bool.
 Import ListNotations.
-From NJ Require Import Base Registry Classify Select Reorder Machine Spec Bind Refine Chain SpecLemmas CoverProofs.
+From NJ Require Import Base Registry Classify Select Reorder Machine Spec Bind Refine Chain SpecLemmas CoverProofs WfProofs.
 
 (* Whole chains: for every case that binds (plan passing the decidable well-formedness check that
    the correspondence run evaluates on every case), every provider behaviour (wrappers as arbitrary
@@ -75,3 +75,59 @@ Theorem C01_source_is_an_earlier_included_provider : forall te funcs1 funcs,
     exists d r, d < k /\ getp funcs d = Some r /\ p_include r = true /\ In (remap (p_downR p) t) (pflow r FOut).
 Proof. intros te f1 f H. exact (proj1 (select_sources te f1 f H)). Qed.
 Print Assumptions C01_source_is_an_earlier_included_provider.
+
+(* The well-formedness hypothesis of C01_chain_refines_reference is itself a theorem: every chain
+   that binds has well-formed slot tables, a clean base array, slots for everything an included
+   provider reads, and compiled closures that are exactly the reference projection of its plan -
+   provided no included per-invocation provider other than a plain injector was placed before the
+   invoke function (only Reorder can do that) and what an init function returns has slots. *)
+Theorem C01_bound_chain_is_well_formed : forall c pl b,
+  bind_chain c = Ok (pl, b) -> runs_after_invoke pl = true -> init_covered pl = true ->
+  plan_wf (bc_te c) pl b = true.
+Proof. exact bind_plan_wf. Qed.
+Print Assumptions C01_bound_chain_is_well_formed.
+
+(* Hence, with nothing left to validate on the case: for every case without Reorder annotations
+   and without an init function, a chain that binds runs - for every provider behaviour, world and
+   session - exactly as the reference semantics of its plan. *)
+Theorem C01_every_plain_chain_refines_reference :
+  forall (c : bcase) (pl : plan) (b : bound),
+    plain_case c = true -> bind_chain c = Ok (pl, b) ->
+    exists sp, splan_of (bc_te c) pl = Some sp /\
+    forall (W : Type) (beh_fn : nat -> W -> list val -> W * list val)
+           (beh_wrap : nat -> W -> list val -> wtree W) (steps : list step) (w0 : W),
+      let m := run_session W beh_fn beh_wrap b (mkSess W w0 (bd_base0 b) false true) steps in
+      let s := sem_session W beh_fn beh_wrap (te_errorT (bc_te c)) sp
+                           (mkSsess W w0 (base_env (pl_slots pl) (bd_base0 b)) false true) steps in
+      snd m = snd s /\ ss_w W (fst m) = sq_w W (fst s).
+Proof. exact chain_refines_plain. Qed.
+Print Assumptions C01_every_plain_chain_refines_reference.
+
+(* ... and for every other chain that binds under the two positional conditions. *)
+Theorem C01_every_bound_chain_refines_reference :
+  forall (c : bcase) (pl : plan) (b : bound),
+    bind_chain c = Ok (pl, b) -> runs_after_invoke pl = true -> init_covered pl = true ->
+    exists sp, splan_of (bc_te c) pl = Some sp /\
+    forall (W : Type) (beh_fn : nat -> W -> list val -> W * list val)
+           (beh_wrap : nat -> W -> list val -> wtree W) (steps : list step) (w0 : W),
+      let m := run_session W beh_fn beh_wrap b (mkSess W w0 (bd_base0 b) false true) steps in
+      let s := sem_session W beh_fn beh_wrap (te_errorT (bc_te c)) sp
+                           (mkSsess W w0 (base_env (pl_slots pl) (bd_base0 b)) false true) steps in
+      snd m = snd s /\ ss_w W (fst m) = sq_w W (fst s).
+Proof. exact chain_refines_bound. Qed.
+Print Assumptions C01_every_bound_chain_refines_reference.
+
+(* non-vacuity: a plain case that binds (A-producer, B-from-A injector, final taking B and
+   returning C to the invoke function) *)
+Definition ex1_ty (c : nat) : tyinfo := mkTy c false 1 0 true true false [] 0.
+Definition ex1_te : tyenv := mkTyenv [ex1_ty 10; ex1_ty 11; ex1_ty 12] 1 2 3 4 5.
+Definition ex1_pd (pid : nat) (s : shape) : pdesc :=
+  mkPdesc pid 0 0 0 0 s false false false false false false false false false false false false 0 [] None None [] 0 [1] false.
+Definition ex1_case : bcase :=
+  mkCase ex1_te [ex1_pd 1 (ShFn [] [10]); ex1_pd 2 (ShFn [10] [11]); ex1_pd 3 (ShFn [11] [12])]
+         (ex1_pd 92 (ShFnPtr [] [12])) None [true].
+Example C01_plain_nonvacuous :
+  plain_case ex1_case = true /\
+  exists pl b, bind_chain ex1_case = Ok (pl, b) /\ map p_pid (filter p_include (pl_funcs pl)) = [92; 1; 2; 3].
+Proof. split; [reflexivity|]. eexists. eexists. split; [vm_compute; reflexivity|reflexivity]. Qed.
+Print Assumptions C01_plain_nonvacuous.
